@@ -72,7 +72,7 @@ pub fn profile(name: &str) -> Profile {
         "C06" | "C17" => {
             p.name = "hostile";
             p.malformed_pct = 40;
-            p.setcfg_mps_pct = 0;
+            p.setcfg_mps_pct = 6;
             p.w = [15, 35, 25, 3, 3, 3, 1, 3, 5, 3, 4];
         }
         "C19" => {
@@ -393,6 +393,12 @@ pub fn gen_op(r: &mut Sm, p: &Profile, inst: &Instance, ctx: &Ctx) -> Op {
         8 => {
             if r.chance(5) {
                 Op::AddB(vec![])
+            } else if inst.cfg.mps > 65600 && r.chance(40) {
+                // items around the 16-bit framing limit (only reachable with packets above 64 KiB)
+                let len = *r.pick(&[65534usize, 65535, 65536, 65600]);
+                let mut v = vec![r.below(4) as u8, r.below(4) as u8];
+                v.resize(len, 0xab);
+                Op::AddB(v)
             } else if r.chance(5) {
                 Op::AddB(vec![7u8; inst.setup.cfg.mps.min(3000) + 1])
             } else {
